@@ -279,6 +279,54 @@ static void matrixTuple(const std::string& g, double t, int n, int a, int b) {
             double d = std::abs(implCols[col][row] - phase * refCols[col][row]);
             if (d > dev) { dev = d; wc = col; wr = row; }
         }
+    // Linearity: the columns fix the map only if the implementation is linear. Apply the gate to superpositions whose amplitudes span many
+    // orders of magnitude (geometric ladders 10^-1 ... 10^-7 per step in several index orders, with varying phases) and compare with the
+    // matrix the columns define. A kernel that treats small, zero or equal amplitudes specially shows here and nowhere in the columns.
+    for (int variant = 0; variant < 6 && dev <= 1e-12; ++variant) {
+        Vec v(dim);
+        double ratio = (variant % 3 == 0) ? 1e-1 : (variant % 3 == 1) ? 1e-3 : 3e-5;
+        double nrm = 0;
+        for (size_t i = 0; i < dim; ++i) {
+            size_t rank = (variant < 3) ? i : (dim - 1 - i);
+            rank = (rank * 5 + (size_t)variant) % dim;  // 5 is odd: a permutation of the indices
+            double mag = std::pow(ratio, (double)(rank % 9));
+            double ang = 0.7 * (double)i + 0.3 * variant;
+            v[i] = cd(mag * std::cos(ang), mag * std::sin(ang));
+            nrm += std::norm(v[i]);
+        }
+        for (auto& x : v) x /= std::sqrt(nrm);
+        QasmSimulator sim(false);
+        for (int i = 0; i < n; ++i) sim.allocateQubit();
+        sim.m_state = v;
+        Op op{g, a, b, t, -1};
+        StepResult r = applyImpl(sim, op);
+        ++g_matrixApps;
+        if (r.threw || sim.m_state.size() != dim) {
+            violation("C01", "matrix:threw:" + g, "gate threw (or resized the state) on a superposed input: " + r.msg, op.str());
+            return;
+        }
+        Vec want = (g == "cx") ? refCx(v, a, b) : refApply1(v, a, refMatrix(g, t));
+        for (size_t row = 0; row < dim; ++row) {
+            double d = std::abs(sim.m_state[row] - phase * want[row]);
+            if (d > 1e-13 + 1e-9 * std::abs(want[row]) && d > dev) {
+                dev = std::max(d, 2e-12);
+                wc = dim + (size_t)variant;
+                wr = row;
+                implCols.push_back(sim.m_state);
+                refCols.push_back(want);
+            }
+        }
+        if (dev > 1e-12) {
+            std::ostringstream w;
+            w << "gate " << g << " theta=" << jnum(t) << " on n=" << n << " operands (" << a << "," << b << "): not linear - on a superposition with amplitudes spanning "
+              << "many orders of magnitude (ladder ratio " << jnum(ratio) << ", variant " << variant << ") amplitude " << wr << " is (" << jnum(sim.m_state[wr].real()) << "," << jnum(sim.m_state[wr].imag())
+              << ") but the matrix fixed by the basis columns gives (" << jnum((phase * want[wr]).real()) << "," << jnum((phase * want[wr]).imag()) << ")";
+            violation("C01", "matrix:nonlinear:" + g, w.str(), Op{g, a, b, t, -1}.str() + " on ladder input variant " + std::to_string(variant) + " of n=" + std::to_string(n));
+            ++g_matrixTuples;
+            g_phase[phaseKey(g, t, n, a, b)] = phase;
+            return;
+        }
+    }
     ++g_matrixTuples;
     g_phase[phaseKey(g, t, n, a, b)] = phase;
     if (!(dev <= 1e-12)) {
